@@ -890,24 +890,24 @@ func checkC16(d *lib.Driver, c *c16Case) error {
 			rep.Add(lib.Finding{Kind: "disagreement", Class: "driver:" + ans[1], What: "the driver refused an rtok request", Replay: c.replay()})
 		}
 	}
-	if d != nil && c.route == "oj" {
-		// the writer half of the Marshal/Unmarshal route: the model of oj.Marshal as it is now describes the
-		// tree the (plain) parser reads from the text Marshal wrote
-		ans, err := d.Ask([]string{encReq("oj", "xy", c.spec, false, true, c.d.String(), valueString(c.d, c.v))})
+	if d != nil && (c.route == "oj" || c.route == "sen") {
+		// the writer half of the Marshal/Unmarshal route: the model of oj.Marshal (strict) / of the sen
+		// writer as it is now describes the tree the (plain) parser reads from the text that was written
+		ans, err := d.Ask([]string{encReq(c.route, "xy", c.spec, false, c.route == "oj", c.d.String(), valueString(c.d, c.v))})
 		if err != nil {
 			return err
 		}
 		switch ans[0] {
 		case "outside", "bad-op":
-			rep.Count("model.marshal."+ans[0], 1)
+			rep.Count("model.writer."+c.route+"."+ans[0], 1)
 		default:
 			if m, got := modelOutcome(ans[0]), canonModel(canonTree(t)); m == got {
-				rep.Count("model.marshal.matches", 1)
+				rep.Count("model.writer."+c.route+".matches", 1)
 			} else {
 				rp := c.replay()
 				rp["model"], rp["implementation"] = m, got
-				rep.Add(lib.Finding{Kind: "disagreement", Class: "model:marshal", Replay: rp,
-					What: fmt.Sprintf("oj.Marshal's text reads as %s, the model of oj.Marshal (Dev.current) gives %s", got, m)})
+				rep.Add(lib.Finding{Kind: "disagreement", Class: "model:writer:" + c.route, Replay: rp,
+					What: fmt.Sprintf("the text the %s writer wrote reads as %s, the model of the writer (Dev.current) gives %s", c.route, got, m)})
 			}
 		}
 	}
@@ -1404,7 +1404,7 @@ func collidingC16(seed uint64, emit func(*c16Case)) {
 		}
 		types = append(types, reflect.StructOf(fs))
 	}
-	// finding C16-omitted-member-sibling-spelling: an omitempty field with an empty value next to a sibling
+	// finding C16-omitted-member-sibling-spelling (fixed by /repo 1029e85; a recurrence is a violation): an omitempty field with an empty value next to a sibling
 	// whose tag name spells its Go name (the member is absent, the lookups fall through)
 	absent := []struct {
 		rt   reflect.Type
